@@ -138,7 +138,10 @@ QWDropped(q) ==
   LET v == (IF q.handles # {} THEN {<<"C09", "wrapped-sink-released-while-handles-are-alive">>,
                                     <<"C08", "wrapped-sink-released-while-handles-are-alive">>} ELSE {})
            \cup (IF q.inSink # NoM THEN {<<"C09", "wrapped-sink-released-while-it-is-running">>} ELSE {})
-           \cup (IF Undelivered(q) # {} THEN {<<"C09", "released-before-the-queue-was-drained">>} ELSE {})
+           \cup (IF Undelivered(q) # {}
+                 THEN {<<"C09", "released-before-the-queue-was-drained">>, <<"C08", "accepted-metric-never-delivered">>}
+                      \cup (IF q.npanic > 0 THEN {<<"C11", "metric-lost-after-panic">>} ELSE {})
+                 ELSE {})
   IN [Flag(q, v) EXCEPT !.released = TRUE]
 
 (* ---- counters -------------------------------------------------------------- *)
@@ -173,7 +176,10 @@ QQuiesce(q, s, d, qd, p) ==
 \* after the last drop and a generous wait
 QEnd(q, released, exited) ==
   LET v == IF q.handles # {} THEN {} ELSE
-           (IF Undelivered(q) # {} THEN {<<"C09", "accepted-metric-not-delivered-after-last-drop">>} ELSE {})
+           (IF Undelivered(q) # {}
+            THEN {<<"C09", "accepted-metric-not-delivered-after-last-drop">>, <<"C08", "accepted-metric-never-delivered">>}
+                 \cup (IF q.npanic > 0 THEN {<<"C11", "metric-lost-after-panic">>} ELSE {})
+            ELSE {})
            \cup (IF ~exited THEN {<<"C09", "background-thread-did-not-terminate">>} ELSE {})
            \cup (IF ~released THEN {<<"C09", "wrapped-sink-not-released">>} ELSE {})
   IN Flag(q, v)
